@@ -381,7 +381,7 @@ def style_job(job):
             elif op["op"] == "save":
                 e["exc"] = ""
                 try:
-                    doc.save(path)
+                    doc.save(path, package=(idx % 4 == 3))      # every fourth history goes through the package form (images are loose files there)
                     d2 = Document(path)
                     e["re"] = {c: token(d2, c) for c in pos}
                 except Exception as ex:  # noqa: BLE001
@@ -409,7 +409,10 @@ def style_job(job):
             trace["ev"].append(e)
             break
         trace["ev"].append(e)
-    if os.path.exists(path):
+    if os.path.isdir(path):
+        import shutil
+        shutil.rmtree(path)
+    elif os.path.exists(path):
         os.remove(path)
     return trace
 
